@@ -5,6 +5,7 @@ Every theorem is for all accepted parameters `p` (`p.ok` = what the constructor 
 all states `st` (any supply, any history) and all finite written values `v`.
 -/
 import CobaldVerif.Lemmas.Standardiser
+import CobaldVerif.Generated.Src
 
 namespace Cobald.Props.C06
 open Cobald Cobald.ERat Cobald.Standardiser
@@ -166,6 +167,13 @@ example : exP.g ≠ 1 ∧ exP.min ≤ fin (floorTo 8 exP.g) ∧ fin (floorTo 8 e
   decide +kernel
 example : (cd exP exSt.pool.supply 5).isFin = true := by decide +kernel
 example : (Standardiser.read exP (incrN exP (write exP exSt 5) 1 4)).2 = fin 9 := by decide +kernel
+
+/-! ### the source's `_clamp`
+
+`Generated/Src.lean` is re-emitted from the text of `decorator/standardiser.py` on every run. -/
+
+/-- `_clamp` as written in the source is the model's `clamp` (on which every theorem above rests) -/
+theorem gen_clamp_eq (low v high : ERat) : Gen.clamp low v high = clamp low v high := rfl
 
 /-! ### every supply, the infinite ones included -/
 
